@@ -7,7 +7,7 @@
    Grammar: Json/Grammar.v  sval h v  (structural JSON value needing at most h FSM frames),
             strict d v (RFC 8259 value of nesting depth at most d). *)
 From Coq Require Import NArith Bool List Arith.
-From SV.Json Require Import Chars StrScan NumScan Fsm Grammar StrScanProofs NumScanProofs FsmProofs Lang FsmSound FsmComplete Wrappers Fast FastProofs.
+From SV.Json Require Import Chars StrScan NumScan Fsm Grammar StrScanProofs NumScanProofs FsmProofs Lang FsmSound FsmComplete Wrappers Fast FastProofs VsProofs BitTrick.
 Import ListNotations.
 Open Scope N_scope.
 
@@ -89,6 +89,13 @@ Print Assumptions C02_fsm_sound_partial.
 Example C02_fsm_sound_nonvacuous : skip_one [32; 91; 49; 44; 123; 125; 93; 120] = Ok ([91; 49; 44; 123; 125; 93; 120], [120]).
 Proof. vm_compute. reflexivity. Qed.
 
+(* sharp form: the only accepted non-values are bare top-level strings  blank* QUOTE body  with body in the defect
+   class, consumed to the end of the input (after the first iteration the bottom frame is a container frame) *)
+Theorem C02_fsm_sound_sharp : forall s v r, skip_one s = Ok (v, r) ->
+  (exists w val, s = w ++ val ++ r /\ v = val ++ r /\ all_ws w /\ sval MAX_RECURSE val) \/ (r = [] /\ bare_bug_string s).
+Proof. exact skip_one_sound_sharp. Qed.
+Print Assumptions C02_fsm_sound_sharp.
+
 (* full soundness is false of the faithful model: the unterminated string QUOTE followed by 32 bytes `a` is accepted *)
 Theorem C02_fsm_sound_refuted : exists s, Valid s = Ok true /\
   ~ (exists w v w2 h, s = w ++ v ++ w2 /\ all_ws w /\ all_ws w2 /\ sval h v).
@@ -133,6 +140,12 @@ Theorem C02_valid_iff_partial : forall s, ~ bugged s -> (Valid s = Ok true <-> s
 Proof. exact valid_iff_partial. Qed.
 Print Assumptions C02_valid_iff_partial.
 
+(* valid_iff at full strength over the faithful model: Valid accepts exactly blank* value blank* and the bare
+   unterminated strings of the defect class *)
+Theorem C02_valid_iff_sharp : forall s, Valid s = Ok true <-> structurally_valid s \/ bare_bug_string s.
+Proof. exact valid_iff_sharp. Qed.
+Print Assumptions C02_valid_iff_sharp.
+
 Theorem C02_check_trailings_spec : forall rest, CheckTrailings rest = true <-> all_ws rest.
 Proof. exact check_trailings_spec. Qed.
 Print Assumptions C02_check_trailings_spec.
@@ -155,3 +168,35 @@ Theorem C02_fast_skip_exact_span_refuted : exists s v r r',
   skip_one s = Ok (v, r) /\ skip_one_fast_1 s = Ok (v, r') /\ r <> r'.
 Proof. exact fast_skip_exact_span_refuted. Qed.
 Print Assumptions C02_fast_skip_exact_span_refuted.
+
+(* ---- flags & MASK_VALIDATE_STRING (ConfigStd / ValidateString): advance_string_validate ---------------------- *)
+
+(* the string-validating scanner succeeds only where the default one does, with the same suffix *)
+Theorem C02_advance_string_validate_sub : forall fuel s r,
+  advance_string_validate fuel s = SOk r -> advance_string_default fuel s = Some r.
+Proof. exact advance_string_validate_sub. Qed.
+Print Assumptions C02_advance_string_validate_sub.
+Example C02_advance_string_validate_nonvacuous : advance_string_validate 10 [97; 92; 117; 48; 48; 52; 49; 34; 44] = SOk [44].
+Proof. vm_compute. reflexivity. Qed.
+
+(* the FSM with MASK_VALIDATE_STRING accepts a subset of what it accepts without, with the same span ... *)
+Theorem C02_skip_one_vs_sub : forall s v r, skip_one_vs s = Ok (v, r) -> skip_one s = Ok (v, r).
+Proof. exact skip_one_vs_sub. Qed.
+Print Assumptions C02_skip_one_vs_sub.
+
+(* ... and is sound at full strength (advance_string_validate has no uninitialised variable) *)
+Theorem C02_fsm_vs_sound : forall s v r, skip_one_vs s = Ok (v, r) ->
+  exists w val, s = w ++ val ++ r /\ v = val ++ r /\ all_ws w /\ sval MAX_RECURSE val.
+Proof. exact skip_one_vs_sound. Qed.
+Print Assumptions C02_fsm_vs_sound.
+Example C02_fsm_vs_sound_nonvacuous : skip_one_vs [91; 34; 97; 34; 93] = Ok ([91; 34; 97; 34; 93], []).
+Proof. vm_compute. reflexivity. Qed.
+
+(* ---- the backslash-run bit trick, 14-bit words ------------------------------------------------------------ *)
+
+(* m0_mask (width-generic transcription) marks exactly the positions that follow an unescaped backslash and
+   produces the right carry, for every 14-bit backslash mask and both carries (complete sweep). The shipped code
+   uses 32- and 64-bit words: m0_mask_spec at those widths is not proved. *)
+Theorem C02_m0_mask_spec_w14_partial : forall m1 cr, m1 < 16384 -> cr < 2 -> check14 m1 cr = true.
+Proof. exact m0_mask_spec_w14_partial. Qed.
+Print Assumptions C02_m0_mask_spec_w14_partial.
